@@ -1,3 +1,4 @@
+from numbers import Integral
 from typing import Optional, Sequence, Union
 
 import numpy as np
@@ -23,8 +24,8 @@ class Repeat(Operation):
 
     def backward_var(self, grad, index, **kwargs):
         a = self.variables[index].data  # type: np.ndarray
-        if isinstance(self._repeats, int) or len(self._repeats) == 1:
-            if not isinstance(self._repeats, int):
+        if isinstance(self._repeats, Integral) or len(self._repeats) == 1:
+            if not isinstance(self._repeats, Integral):
                 (self._repeats,) = self._repeats
 
             if not self._repeats:
